@@ -180,6 +180,68 @@ fn check(c: &Case, obs: &mut Obs) -> Result<(), Fail> {
     Ok(())
 }
 
+/// Maps that repeat a key (the wire format cannot forbid it): whatever a decoder does with the repeated entries — keep one,
+/// keep the last, refuse, combine — no wrapper of the decoded value may hold zero. Quantities are chosen so that the
+/// repeated entries cancel.
+#[derive(Debug, Clone, Serialize, Deserialize)]
+pub struct DupCase {
+    /// the repeated entries' quantities (each one non-zero and in range)
+    qs: Vec<i64>,
+    /// 0: the asset name repeats inside one policy; 1: the policy repeats; 2: both
+    level: u8,
+    /// 0: a mint decoded directly; 1: the mint field of a transaction body; 2: an output value (positive quantities only)
+    site: u8,
+}
+
+fn check_dup(c: &DupCase, obs: &mut Obs) -> Result<(), Fail> {
+    let pol = [0x11u8; 28];
+    let name = cborx::bytes(b"a");
+    let positive = c.site == 2;
+    let qs: Vec<i128> = c.qs.iter().map(|q| if positive { (*q as i128).abs().max(1) } else { *q as i128 }).collect();
+    let entry = |q: i128| (name.clone(), cborx::int(q));
+    let ma = match c.level % 3 {
+        0 => cborx::map(vec![(cborx::bytes(&pol), cborx::map(qs.iter().map(|q| entry(*q)).collect()))]),
+        1 => cborx::map(qs.iter().map(|q| (cborx::bytes(&pol), cborx::map(vec![entry(*q)]))).collect()),
+        _ => cborx::map(qs.iter().map(|q| (cborx::bytes(&pol), cborx::map(vec![entry(*q), entry(*q)]))).collect()),
+    };
+    let coin = cborx::uint(2_000_000);
+    let site = ["Mint", "BodyMint", "BodyOutputAsset"][c.site as usize % 3];
+    let holds_zero_mint = |m: &conway::Mint| m.values().any(|inner| inner.values().any(|q| i64::from(q) == 0));
+    let (bytes, zero): (Vec<u8>, Result<bool, String>) = match c.site % 3 {
+        0 => {
+            let b = cborx::write(&ma);
+            let r = minicbor::decode::<conway::Mint>(&b).map(|m| holds_zero_mint(&m)).map_err(|e| e.to_string());
+            (b, r)
+        }
+        1 => {
+            let b = cborx::write(&body(vec![(9, ma)], coin));
+            let r = minicbor::decode::<conway::TransactionBody>(&b).map(|t| t.mint.as_ref().map(holds_zero_mint).unwrap_or(false)).map_err(|e| e.to_string());
+            (b, r)
+        }
+        _ => {
+            let b = cborx::write(&body(vec![], cborx::array(vec![coin, ma])));
+            let r = minicbor::decode::<conway::TransactionBody>(&b)
+                .map(|t| match &t.outputs[0] {
+                    conway::TransactionOutput::PostAlonzo(o) => match &o.value {
+                        conway::Value::Multiasset(_, ma) => ma.values().any(|inner| inner.values().any(|q| u64::from(q) == 0)),
+                        _ => false,
+                    },
+                    _ => false,
+                })
+                .map_err(|e| e.to_string());
+            (b, r)
+        }
+    };
+    let cancel = qs.iter().sum::<i128>() == 0;
+    obs.class(format!("duplicate-keys:{site}:{}:{}", if cancel { "cancelling" } else { "not-cancelling" }, if zero.is_ok() { "decoded" } else { "refused" }));
+    if let Ok(z) = zero {
+        pv_ensure!(!z, format!("zero-produced:{site}:duplicate-keys"),
+            "{} repeats a key with the non-zero quantities {:?}; the decoded value holds a zero quantity", hex::encode(&bytes), qs);
+    }
+    obs.nontrivial_if(cancel);
+    Ok(())
+}
+
 /// The checked constructors the statement compares decoding with: zero is refused, everything else is kept as given,
 /// and what they build encodes to an integer that decodes back to the same value.
 fn check_ctor(v: &i128, obs: &mut Obs) -> Result<(), Fail> {
@@ -245,6 +307,25 @@ pub fn run(s: &Session) {
     ctor.sort();
     ctor.dedup();
     s.foreach("checked-constructors", ctor, true, check_ctor);
+    s.forall(
+        "duplicate-keys",
+        s.pick(20_000, 400_000),
+        || {
+            let q = || prop_oneof![Just(1i64), Just(-1), Just(7), Just(-7), Just(i64::MAX), Just(i64::MIN), Just(i64::MIN + 1), -50i64..50, any::<i64>()].prop_filter("non-zero", |q| *q != 0);
+            (
+                prop_oneof![
+                    3 => q().prop_map(|a| vec![a, a.checked_neg().unwrap_or(i64::MAX)]),
+                    1 => Just(vec![i64::MIN, i64::MAX, 1]),
+                    1 => (q(), q()).prop_map(|(a, b)| match a.checked_add(b).and_then(|s| s.checked_neg()) { Some(c) if c != 0 => vec![a, b, c], _ => vec![a, b] }),
+                    2 => prop::collection::vec(q(), 2..4),
+                ],
+                0u8..3,
+                0u8..3,
+            )
+                .prop_map(|(qs, level, site)| DupCase { qs, level, site })
+        },
+        check_dup,
+    );
     s.forall(
         "random",
         s.pick(200_000, 4_000_000),
